@@ -304,3 +304,62 @@ func registerIO(e *Engine) {
 	allowExecNames["(*io.multiWriter).Write"] = true
 	allowExecNames["(*io.multiWriter).WriteString"] = true
 }
+
+// Unix-socket listener (DESIGN.md 3.3): net.Listen("unix", p) fails with EADDRINUSE iff an
+// entry exists at p, else creates it and binds; Accept blocks until the listener is closed
+// (connections are delivered through the sock.Client.Request summary, not through Accept).
+func registerNet(e *Engine) {
+	e.Intr["net.Listen"] = func(c *Call) []*State {
+		addr := c.argTerm(1)
+		return e.fsResolve(c, addr, func(st *State, idx int) Value {
+			if idx >= 0 && st.fs().Files[idx].Exists {
+				return Tuple{Iface{}, e.fsError(st, "addrinuse", "listen unix: bind: address already in use")}
+			}
+			if idx < 0 {
+				st.fsAdd(addr, false, e.now(st))
+			} else {
+				st.fs().Files[idx].Exists = true
+			}
+			chID := st.Alloc(&ChanObj{Cap: 0, ET: types.NewStruct(nil, nil)})
+			id := st.Alloc(Opaque{Kind: "listener", Data: [2]interface{}{addr, chID}})
+			if addr.Const {
+				st.Ghost["listening:"+addr.S] = True
+			}
+			st.Events = append(st.Events, Event{Kind: "listen", Args: []Value{addr}, Thr: c.Th.ID})
+			p := e.Prog.ImportedPackage("net")
+			return Tuple{Iface{T: types.NewPointer(p.Type("UnixListener").Type()), V: Ptr{Obj: id}}, Iface{}}
+		})
+	}
+	lst := func(c *Call) (*Term, int) {
+		d := c.St.Heap[c.Args[0].(Ptr).Obj].(Opaque).Data.([2]interface{})
+		return d[0].(*Term), d[1].(int)
+	}
+	e.Intr["(*net.UnixListener).Accept"] = func(c *Call) []*State {
+		_, ch := lst(c)
+		co := c.St.Heap[ch].(*ChanObj)
+		if co.Closed {
+			return c.Return(Tuple{Iface{}, e.fsError(c.St, "closed", "use of closed network connection")})
+		}
+		c.Retry()
+		e.block(c.St, c.Th, &BlockCond{Kind: "recv", Obj: ch})
+		succ, cont := e.schedule(c.St, c.sol2())
+		if cont {
+			return nil
+		}
+		return succ
+	}
+	e.Intr["(*net.UnixListener).Close"] = func(c *Call) []*State {
+		addr, ch := lst(c)
+		co := *c.St.Heap[ch].(*ChanObj)
+		if co.Closed {
+			return c.Return(e.fsError(c.St, "closed", "use of closed network connection"))
+		}
+		co.Closed = true
+		c.St.Heap[ch] = &co
+		if addr.Const {
+			delete(c.St.Ghost, "listening:"+addr.S)
+		}
+		c.St.Events = append(c.St.Events, Event{Kind: "unlisten", Args: []Value{addr}, Thr: c.Th.ID})
+		return c.Return(Iface{})
+	}
+}
